@@ -357,32 +357,43 @@ def o4(ctx, F):
                               expected=["store(False)", "join"], found=seq)
 
 
-def o5(ctx, F):
-    fn = F.fn(TALK)
-    body = fn["hir"]["body"]
-    env = hir.Env(fn["hir"], F)
-    sym = hir.Sym(env, F)
-    ok = False
-    for n, anc in hir.walk(body):
+def command_arm(F, cmd, expand=()):
+    """(uci_talk with the given anchored handlers expanded, the body of the match arm for the command text `cmd`, Sym) - the
+    handler may be a function or written in the arm itself"""
+    from . import inline
+    fn = inline.expand_known(F, TALK, list(expand))
+    sym = hir.Sym(hir.Env(fn["hir"], F), F)
+    for n, anc in hir.walk(fn["hir"]["body"]):
         if n.get("k") == "Match" and n.get("src") == "Normal":
             for a in n["arms"]:
-                if hir.pat_key(a["pat"]) == ("lit", "isready"):
-                    cs = [c for c, _ in hir.walk(a["body"]) if c.get("k") == "Call" and hir.callee_of(c) == "uci::command_isready"]
-                    if len(cs) == 1:
-                        g = [x for x in (hir.guards_of(cs[0], a["body"], sym) or []) if x[0] == "if"]
-                        others = [c for c, _ in hir.walk(a["body"]) if c.get("k") in ("Call", "MethodCall") and c is not cs[0]
-                                  and not c.get("mac")]
-                        ok = not g and not [o for o in others if o.get("k") == "MethodCall"]
+                pk = hir.pat_key(a["pat"])
+                if pk == ("lit", cmd) or (isinstance(pk, tuple) and pk and pk[0] == "or" and ("lit", cmd) in pk):
+                    return fn, a["body"], sym
+    return fn, None, sym
+
+
+def o5(ctx, F):
+    fn, arm, sym = command_arm(F, "isready", ["uci::command_isready"])
+    ok = False
+    callees = []
+    if arm is not None:
+        conds = [c for c, _ in hir.walk(arm) if c.get("k") in ("If", "Match", "Loop") and not c.get("mac")]
+        callees = sorted({hir.callee_of(c) for c, _ in hir.walk(arm) if c.get("k") in ("Call", "MethodCall") and not c.get("mac") and hir.callee_of(c)})
+        ok = not conds
     ctx.check("C14.O5", "isready-answered-unconditionally", ok, fn=TALK, file=fn["file"],
-              what="`isready` must be answered without looking at the search state or taking the lock", found=ok)
+              what="`isready` must be answered without looking at the search state or taking the lock", found={"arm found": arm is not None, "calls": callees})
     g = mir.callgraph(F)
-    r = mir.reachable_fns(g, "uci::command_isready")
-    bad = sorted(c for c in r if "Mutex" in c and "lock" in c or c.endswith("::join") or "thread::sleep" in c or "stdin" in c)
-    ctx.check("C14.O5", "isready-reaches-no-lock-or-join", not bad, fn="uci::command_isready", file=fn["file"],
-              what="the isready handler can block", found=bad)
-    ws, _ = fmt_writes(F.fn("uci::command_isready"), F)
-    ctx.check("C14.O5", "isready-prints-readyok", any(w[1] and w[1].startswith("readyok") for w in ws), fn="uci::command_isready",
-              file=fn["file"], what="isready must answer `readyok`", found=[w[1] for w in ws])
+    r = set()
+    for c in callees:
+        r.add(c)
+        r |= mir.reachable_fns(g, c)
+    bad = sorted(c for c in r if "Mutex" in c and "lock" in c or c.endswith("::join") or "thread::sleep" in c or "stdin" in c or "Atomic" in c)
+    ctx.check("C14.O5", "isready-reaches-no-lock-or-join", not bad, fn=TALK, file=fn["file"],
+              what="the isready handler can block (or looks at the search state)", found=bad)
+    ws, _ = fmt_writes(fn, F)
+    mine = [w for w in ws if arm is not None and any(x is w[0] for x, _ in hir.walk(arm))]
+    ctx.check("C14.O5", "isready-prints-readyok", any(w[1] and w[1].startswith("readyok") for w in mine), fn=TALK,
+              file=fn["file"], what="isready must answer `readyok`", found=[w[1] for w in mine])
 
 
 def o7(ctx, F):
